@@ -979,13 +979,12 @@ def rule_R12(res, prog):
     res.floor(rid, 1)
 
 
-def rule_R13(res, prog):
+def rule_R13(res, prog, prop=PROP, rid="C03.R13"):
     """'inside its validity period now' rests on the date parser: RFC 5280 4.1.2.5.1 - a UTCTime year YY means 19YY when
     YY >= 50 and 20YY when YY < 50.  In parsedate_zulu the branch that moves a two-digit year into the 2000s (`year += 100`)
     is taken exactly for year < 50; the constant and the direction are compared with the RFC, whatever form the test has."""
     import re
     from sa import cfgutil as cu
-    rid = "C03.R13"
     res.rule(rid, "UTCTime two-digit years: exactly the years below 50 are moved to the 2000s (RFC 5280 4.1.2.5.1)")
     fn = prog.fn("parsedate_zulu")
     n = 0
@@ -1023,7 +1022,7 @@ def rule_R13(res, prog):
             f_ = None
             if not ok:
                 wrong = sorted(taken ^ set(range(50)))
-                f_ = Finding(PROP, rid, fn.name, "UTCTime century pivot differs from RFC 5280",
+                f_ = Finding(prop, rid, fn.name, "UTCTime century pivot differs from RFC 5280",
                              "%s:%s parsedate_zulu(): two-digit years %s are %s the 2000s (condition %s): RFC 5280 reads YY >= 50 as 19YY and "
                              "YY < 50 as 20YY, so a certificate whose notAfter year is one of them is judged against a date a century off "
                              "(an expired certificate validates, or a valid one is refused)" % (
